@@ -1348,6 +1348,47 @@ def _header_exprs(n) -> list[ast.AST]:
     return []
 
 
+def _direct_warn_count(exprs: list[ast.AST], heading_slug: bool) -> int:
+    c = 0
+    for e in exprs:
+        for x in ast.walk(e):
+            if not isinstance(x, ast.Call):
+                continue
+            last = (dotted(x.func) or "").split(".")[-1]
+            tagged = any(isinstance(a, ast.Attribute) and a.attr == "HEADING_SLUG" for a in list(x.args) + [kw.value for kw in x.keywords])
+            if heading_slug and last == "create_warning" and tagged:
+                c += 1
+            if not heading_slug and last in ("create_warning", "warning", "error", "severe") and not tagged:
+                c += 1
+    return c
+
+
+def _package_helpers(corpus: Corpus, fi: FunctionInfo, call: ast.Call) -> list[FunctionInfo]:
+    """Package functions a call resolves to (the warning primitives themselves are not helpers)."""
+    if (dotted(call.func) or "").split(".")[-1] in ("create_warning", "token_line"):
+        return []
+    g = get_callgraph(corpus)
+    return [h for h in g.flat_targets(g.resolve_call(call, fi)) if not h.is_lambda and h.fq != fi.fq and h.name != "create_warning"]
+
+
+def _warn_weight(corpus: Corpus, fi: FunctionInfo, n, heading_slug: bool, depth: int = 1) -> int:
+    """Warnings issued by CFG node ``n``: direct calls plus helpers that warn on every path the same number of times."""
+    exprs = _header_exprs(n)
+    c = _direct_warn_count(exprs, heading_slug)
+    if depth <= 0:
+        return c
+    for e in exprs:
+        for x in ast.walk(e):
+            if isinstance(x, ast.Call):
+                for h in _package_helpers(corpus, fi, x):
+                    hc = get_cfg(h).counts("ENTRY", [EXIT], lambda m, h=h: _warn_weight(corpus, h, m, heading_slug, depth - 1))
+                    got = hc.get(EXIT, {0})
+                    if len(got) != 1:
+                        raise Unsupported(f"{h.fq}: helper called from the slug handler warns on some paths only ({sorted(got)})")
+                    c += next(iter(got))
+    return min(c, 2)
+
+
 def _is_broad(h: ast.ExceptHandler) -> bool:
     if h.type is None:
         return True
@@ -1414,22 +1455,10 @@ def r4_foreign_callable(corpus: Corpus, rep: Report, tier: str):
         reg_text = unparse(reg) if reg is not None else None
 
         def warns(n) -> int:
-            c = 0
-            for e in _header_exprs(n):
-                for x in ast.walk(e):
-                    if isinstance(x, ast.Call) and (dotted(x.func) or "").split(".")[-1] == "create_warning":
-                        if any(isinstance(a, ast.Attribute) and a.attr == "HEADING_SLUG" for a in list(x.args) + [kw.value for kw in x.keywords]):
-                            c += 1
-            return c
+            return _warn_weight(corpus, fi, n, True)
 
         def other_warns(n) -> int:
-            c = 0
-            for e in _header_exprs(n):
-                for x in ast.walk(e):
-                    if isinstance(x, ast.Call) and (dotted(x.func) or "").split(".")[-1] in ("create_warning", "warning", "error", "severe"):
-                        if not any(isinstance(a, ast.Attribute) and a.attr == "HEADING_SLUG" for a in list(x.args) + [kw.value for kw in x.keywords]):
-                            c += 1
-            return c
+            return _warn_weight(corpus, fi, n, False)
 
         def stores(n) -> int:
             if isinstance(n, (ast.Assign, ast.AugAssign, ast.AnnAssign)):
@@ -1464,7 +1493,7 @@ def r4_foreign_callable(corpus: Corpus, rep: Report, tier: str):
             x
             for s in h.body
             for x in ast.walk(s)
-            if isinstance(x, ast.Call) and (dotted(x.func) or "").startswith("self.") and (dotted(x.func) or "").split(".")[-1] != "create_warning"
+            if isinstance(x, ast.Call) and (dotted(x.func) or "").startswith("self.") and (dotted(x.func) or "").split(".")[-1] != "create_warning" and not _package_helpers(corpus, fi, x)
         ]
         if wc[EXIT] == {0} and helper_calls:
             raise Unsupported(f"{hsite}: the handler delegates to `{short(helper_calls[0], 40)}`; whether it warns is not decided")
@@ -1843,11 +1872,16 @@ def _check_reader(f: FunctionInfo, r: ast.AST, name: str, kinds: list[str], p_id
 # R6 what may pre-empt the slug lookup
 
 
-def _stores_refid(stmts: list[ast.stmt]) -> bool:
+def _stores_refid(stmts: list[ast.stmt], f: FunctionInfo | None = None, corpus: Corpus | None = None, depth: int = 1) -> bool:
+    """A `[...]["refid"] = ...` store in the statements, or in a package helper they call."""
     for st in stmts:
         for n in ast.walk(st):
             if isinstance(n, ast.Assign) and any(isinstance(t, ast.Subscript) and isinstance(t.slice, ast.Constant) and t.slice.value == "refid" for t in n.targets):
                 return True
+            if isinstance(n, ast.Call) and corpus is not None and f is not None and depth > 0:
+                for h in _package_helpers(corpus, f, n):
+                    if _stores_refid(h.node.body, h, corpus, depth - 1):
+                        return True
     return False
 
 
@@ -1911,7 +1945,7 @@ def r6_slug_preemption(corpus: Corpus, rep: Report, tier: str):
                 if var is None:
                     continue  # R5 reports it
                 # the branch that resolves a link from the slug table
-                for s_if in [x for x in f.local_nodes() if isinstance(x, ast.If) and _membership_table(x.test) == var and _stores_refid(x.body)]:
+                for s_if in [x for x in f.local_nodes() if isinstance(x, ast.If) and _membership_table(x.test) == var and _stores_refid(x.body, f, corpus)]:
                     rep.saw_function(f.fq)
                     blk = None
                     pp = parent(s_if)
@@ -1921,7 +1955,7 @@ def r6_slug_preemption(corpus: Corpus, rep: Report, tier: str):
                     if blk is None:
                         raise Unsupported(f"{f.module.site(s_if)}: position of the slug branch not understood")
                     for e in blk[: blk.index(s_if)]:
-                        if not (isinstance(e, ast.If) and _stores_refid(e.body) and e.body and isinstance(e.body[-1], (ast.Continue, ast.Return))):
+                        if not (isinstance(e, ast.If) and _stores_refid(e.body, f, corpus) and e.body and isinstance(e.body[-1], (ast.Continue, ast.Return))):
                             continue
                         n += 1
                         table = _membership_table(e.test)
